@@ -556,10 +556,18 @@ def _zip_item_ok(item, results):
     return None
 
 
-def judge_zip(res, typ, names, hist, fields):
+def _zip_value(v, with_none):
+    """The v-th filled value; with_none: every third one is None (a value like any other, also as the
+    i-th result of a branch - it does not end that branch's results)."""
+    return None if (with_none and v % 3 == 2) else v
+
+
+def judge_zip(res, typ, names, hist, fields, with_none=False):
     """Zip of branches of one type driven by the event history ('f' fill, 't' take results)."""
     meth = "compute" if typ == "fc" else "request"
     case = {"law": "zip-" + typ, "branches": list(names), "history": hist, "fields": fields}
+    if with_none:
+        case["none_values"] = True
     table = dict((nm, form) for nm, form, f in _zip_factories(typ))
     kind = M.FC if typ == "fc" else M.FR
     try:
@@ -569,7 +577,7 @@ def judge_zip(res, typ, names, hist, fields):
             if ev == "f":
                 v += 1
                 for br in branches:
-                    br.fill(copy.deepcopy(v))
+                    br.fill(copy.deepcopy(_zip_value(v, with_none)))
             else:
                 rs = [list(getattr(br, meth)()) for br in branches]
                 m = min(len(r) for r in rs)
@@ -600,7 +608,7 @@ def judge_zip(res, typ, names, hist, fields):
         for ev in hist:
             if ev == "f":
                 v += 1
-                z.fill(v)
+                z.fill(_zip_value(v, with_none))
             else:
                 got.append(list(getattr(z, meth)()))
     except Exception as e:  # noqa
@@ -627,7 +635,8 @@ def judge_zip(res, typ, names, hist, fields):
             problem = "length"
     if problem:
         res.violation(case, got, {"tuples_of": exp},
-                      {"law": "zip-" + typ, "observed": problem, "fields": bool(fields)})
+                      {"law": "zip-" + typ, "observed": problem, "fields": bool(fields),
+                       "none_among_the_values": with_none})
 
 
 # --------------------------------------------------------------------------------------------------
@@ -697,6 +706,8 @@ def run_shard(p, tier):
             for hist in hists:
                 for fields in (False, True):
                     judge_zip(res, typ, names, hist, fields)
+                    if hist.count("f") >= 2:
+                        judge_zip(res, typ, names, hist, fields, with_none=True)
         res.sample({"law": kind, "branches": pool[:2], "history": "fft", "fields": False}, 1)
     else:
         raise ValueError(kind)
@@ -723,7 +734,8 @@ def replay(case):
     elif law == "common-source":
         judge_common_source(res, case["branches"], case["calls"], case.get("bufsize", "default"))
     elif law in ("zip-fc", "zip-fr"):
-        judge_zip(res, law[-2:], case["branches"], case["history"], case["fields"])
+        judge_zip(res, law[-2:], case["branches"], case["history"], case["fields"],
+                  with_none=bool(case.get("none_values")))
     else:
         raise ValueError("unknown law %r" % (law,))
     return result_violations(res)
